@@ -114,25 +114,39 @@ def lean_sources_for(prop):
     return sorted(seen)
 
 
-def audit(prop, thorough=False):
+def audit(prop, thorough=False, extra_modules=()):
     """Build the property module, grep for forbidden constructs, #print axioms of every theorem.
     Returns dict(ok, obligations, discharged, axioms, problems, checker_cmd)."""
     res = {"ok": False, "obligations": 0, "discharged": 0, "axioms": {}, "problems": [],
            "checker_cmd": f"cd lean && lake build OsuProps.{prop} osu_driver && lake env lean <#print axioms of every theorem in OsuProps/{prop}.lean>"}
-    ok, out, dt = lake_build([f"OsuProps.{prop}", "osu_driver"])
-    res["build_s"] = round(dt, 1)
+    mods = [prop] + list(extra_modules)
+    okd, outd, dtd = lake_build(["osu_driver"])
+    if not okd:
+        res["problems"].append("lake build osu_driver failed:\n" + outd[-3000:])
+        try:
+            DRIVER.unlink()
+        except OSError:
+            pass
+    ok, out, dt = lake_build([f"OsuProps.{m}" for m in mods])
+    res["build_s"] = round(dt + dtd, 1)
     if not ok:
-        res["problems"].append("lake build failed:\n" + out[-3000:])
+        res["problems"].append("lake build failed (a proof obligation no longer checks):\n" + out[-3000:])
         return res
-    for f in lean_sources_for(prop):
-        for i, line in enumerate(strip_comments(f.read_text()).splitlines(), 1):
-            if FORBIDDEN.search(line):
-                res["problems"].append(f"forbidden construct in {f.relative_to(LEAN)}:{i}: {line.strip()}")
-    names, n_ex = property_theorems(prop)
+    names, n_ex = [], 0
+    for m in mods:
+        for f in lean_sources_for(m):
+            for i, line in enumerate(strip_comments(f.read_text()).splitlines(), 1):
+                if FORBIDDEN.search(line):
+                    msg = f"forbidden construct in {f.relative_to(LEAN)}:{i}: {line.strip()}"
+                    if msg not in res["problems"]:
+                        res["problems"].append(msg)
+        nm, ne = property_theorems(m)
+        names += nm
+        n_ex += ne
     res["obligations"] = len(names)
     res["examples"] = n_ex
     gen = LEAN / ".lake" / f"audit_{prop}.lean"
-    gen.write_text(f"import OsuProps.{prop}\n" + "".join(f"#print axioms {n}\n" for n in names))
+    gen.write_text("".join(f"import OsuProps.{m}\n" for m in mods) + "".join(f"#print axioms {n}\n" for n in names))
     rc, out, _ = sh(["lake", "env", "lean", str(gen)], cwd=LEAN, timeout=1800)
     if rc != 0:
         res["problems"].append("axiom audit failed to run:\n" + out[-2000:])
@@ -151,7 +165,7 @@ def audit(prop, thorough=False):
         else:
             res["problems"].append(f"{n} depends on non-standard axioms {ax}")
     if thorough:
-        rc, out, dt = sh(["lake", "env", "leanchecker", f"OsuProps.{prop}"], cwd=LEAN, timeout=3600)
+        rc, out, dt = sh(["lake", "env", "leanchecker"] + [f"OsuProps.{m}" for m in mods], cwd=LEAN, timeout=3600)
         res["leanchecker_s"] = round(dt, 1)
         res["checker_cmd"] += f" && lake env leanchecker OsuProps.{prop}"
         if rc != 0:
